@@ -10,12 +10,21 @@ out=/verif/seeded/$id
 props="$*"
 [ -n "$props" ] || props=$(python3 -c "import json;print(json.load(open('$out/meta.json'))['property'])")
 p=$out/patch.diff; [ -f $out/patch_repo.diff ] && p=$out/patch_repo.diff
-cd /repo || exit 2
-if [ -n "$(git status --porcelain --untracked-files=no)" ]; then echo "/repo working tree not clean"; exit 2; fi
-git apply --check $p || { echo "patch does not apply to /repo"; exit 2; }
+# SCRATCH=1: work on a throw-away copy of /repo's working tree under /tmp instead (so that a
+# long background run against /repo is not disturbed); the copy is removed afterwards.
+R=/repo; REPOARG=""
+if [ -n "$SCRATCH" ]; then
+  R=/tmp/seedrun_$id; rm -rf $R; mkdir -p $R
+  rsync -a --exclude .git --exclude '*.o' --exclude '*.lo' --exclude .libs --exclude test --exclude examples /repo/ $R/
+  ( cd $R && git init -q . 2>/dev/null )
+  REPOARG="--repo $R"
+fi
+cd $R || exit 2
+if [ -z "$SCRATCH" ] && [ -n "$(git status --porcelain --untracked-files=no)" ]; then echo "/repo working tree not clean"; exit 2; fi
+git apply --check $p || { echo "patch does not apply to /repo"; [ -n "$SCRATCH" ] && rm -rf $R; exit 2; }
 git apply $p
 for prop in $props; do
-  ( cd /verif && bin/check $prop --no-evidence > $out/check_output_$prop.txt 2>&1 ); rc=$?
+  ( cd /verif && bin/check $prop --no-evidence $REPOARG > $out/check_output_$prop.txt 2>&1 ); rc=$?
   echo "$id: check $prop exit=$rc"
   grep -E "class=" $out/check_output_$prop.txt | head -3 | cut -c1-260
   python3 - <<PY
@@ -30,4 +39,4 @@ if "$prop"==m["property"]:
 json.dump(m,open("$out/meta.json","w"),indent=1)
 PY
 done
-git checkout -- .
+if [ -n "$SCRATCH" ]; then cd /; rm -rf $R; else git checkout -- .; fi
